@@ -83,6 +83,7 @@ type Exec struct {
 	targetPkgs map[string]bool
 	private   []privCell
 	privMaps  []privMap
+	loopHavoc bool
 	constGlobals map[string]Val
 	tagFacts    []*Term
 	sealedImpls map[string][]int
